@@ -109,6 +109,7 @@ def run(c, prog):
     C17_domain.run(core.Alias(c, "C14"), prog, which=("font",))     # `fonts with and without cached face`: None and Some("") share one spelling
     from . import C01_rot
     C01_rot.run(core.Alias(c, "C14"), prog)     # the CFrame attribute shares the 24 rotation ids
+    C01_rot.rule_exact(c, prog, "C14.rot", "the attribute writer")
     from . import C13 as _C13
     a13 = core.Alias(c, "C14")
     a13.rule("C13.read", "Attributes::from_reader: zero bytes is the empty map, anything else is read completely however the reader delivers it (read_exact_or_none)")
